@@ -1286,6 +1286,21 @@ class Interp:
         if isinstance(t, ast.Name):
             fr.locals[t.id] = v
         elif isinstance(t, (ast.Tuple, ast.List)):
+            stars = [k for k, e in enumerate(t.elts) if isinstance(e, ast.Starred)]
+            if len(stars) == 1 and isinstance(v, (tuple, PyList)):
+                # a, *rest, z = <concrete-length sequence>
+                seq = list(v) if isinstance(v, tuple) else list(v.items)
+                k0, n_after = stars[0], len(t.elts) - stars[0] - 1
+                if len(seq) < len(t.elts) - 1:
+                    raise PyRaise(ExcVal("ValueError", ("unpack",)), t)
+                for e, x in zip(t.elts[:k0], seq[:k0]):
+                    self.assign(e, x, fr)
+                self.assign(t.elts[k0].value, PyList(seq[k0:len(seq) - n_after]), fr)
+                for e, x in zip(t.elts[k0 + 1:], seq[len(seq) - n_after:] if n_after else []):
+                    self.assign(e, x, fr)
+                return
+            if stars:
+                raise Unsupported("starred assignment target", t)
             items = self.unpack(v, len(t.elts), t)
             for e, x in zip(t.elts, items):
                 self.assign(e, x, fr)
